@@ -9,7 +9,7 @@ for f in sorted(glob.glob("/verif/seeded/*/meta.json")):
     summ = (m.get("summary", "") + " Needs: " + m.get("needs", "")).replace("|", "/").replace("\n", " ")
     if len(summ) > 330:
         summ = summ[:327] + "..."
-    rows.append(f"| `seeded/{pid}` | {summ} | {first} | {m.get('detected_by','').replace('|','/')} |")
+    rows.append(f"| `seeded/{os.path.basename(os.path.dirname(f))}` | {summ} | {first} | {m.get('detected_by','').replace('|','/')} |")
 p = "/verif/DESIGN.md"
 s = open(p).read()
 s = re.sub(r"<!-- SEEDTABLE:BEGIN -->.*?<!-- SEEDTABLE:END -->", "<!-- SEEDTABLE:BEGIN -->\n" + "\n".join(rows) + "\n<!-- SEEDTABLE:END -->", s, flags=re.S)
